@@ -47,6 +47,23 @@ def make_cases(ctx, first):
                 w.add(session_count(repo))
             if conf["store"] == "dir" and rng.random() < 0.5:
                 w.add(special("snapshot"))
+        if not small:
+            # content the repository already holds is uploaded again through a session: the session is over after the PUT like any other
+            for repo in w.repos:
+                if w.blobs[repo]:
+                    data = rng.choice(w.blobs[repo])
+                    k = w.add(upload_post(repo))
+                    sid = "$SID%d$" % k
+                    h = len(data) // 2
+                    if h and rng.random() < 0.5:
+                        w.add(upload_patch(repo, sid, None, state_token(0), data[:h]))
+                        w.add(upload_put(repo, sid, None, dg("sha256", data), state_token(h), data[h:]))
+                    else:
+                        w.add(upload_put(repo, sid, None, dg("sha256", data), state_token(0), data))
+                    w.add(upload_get(repo, sid))
+                    w.add(upload_patch(repo, sid, None, state_token(len(data)), b"more"))
+                    w.add(upload_delete(repo, sid))
+                    w.add(session_count(repo))
         if conf["store"] == "dir":
             w.add(special("snapshot"))
         cases.append(dict(id=first + i, conf=conf, steps=w.steps, contents=sorted(w.contents)))
